@@ -23,6 +23,9 @@ import (
 
 var newLine = []byte{'\n'}
 
+// maxTokenSize is the longest token that token.Tokenize accepts.
+const maxTokenSize = 1023
+
 func max(a, b int) int {
 	if a > b {
 		return a
@@ -168,7 +171,15 @@ func Render(w io.Writer, tm *t.Map, src []t.Token, comments []string) (err error
 			if s := tm.ByID(tok.ID); (s == "") || (s[0] < '0') || ('9' < s[0]) {
 				buf = append(buf, s...)
 			} else {
+				n := len(buf)
 				buf = appendNum(buf, s)
+				if g := buf[n:]; (len(g) > maxTokenSize) ||
+					((len(g) >= 2) && (g[0] == '0') && ('0' <= g[1]) && (g[1] <= '9')) {
+					// token.Tokenize would not read the re-grouped literal back: it
+					// is too long, or "0_1" became the legacy octal "01". Keep the
+					// literal as it is.
+					buf = append(buf[:n], s...)
+				}
 			}
 
 			if tok.ID == t.IDOpenCurly {
